@@ -1,9 +1,14 @@
 import ThruVerif.Model.Sidecar
 /-!
 What the receiver does with stored resume metadata when a file begins (`handleFileBegin` in `RecvManifestMultiStream`, resume on):
-if the data file is missing or does not have the announced length, the metadata files (primary location and, in rooted mode, the
-fallback location) are removed; then `LoadOrCreateSidecarWithFallback` uses the primary file if it loads and carries the same
-(id, size, chunk size), else the fallback file under the same condition, else starts from an empty bitmap.
+if the data file `<base>/<rel path>` is missing or does not have the announced length, the metadata file next to it
+(`<base>/.thruflux_resumedata/<id>`) is removed; then `LoadOrCreateSidecarWithFallback` (called with an empty fallback path) uses
+that file if it loads and carries the same (id, size, chunk size), else starts from an empty bitmap.
+
+`entry` keeps the general form of `LoadOrCreateSidecarWithFallback` (primary, then fallback); `entryAt` is what the receiver calls.
+Until repo fix f8ec551 the receiver also passed the metadata of the *rooted* directory `<out>/<root>` as fallback
+while writing to `<out>`: that record describes `<out>/<root>/<rel path>`, another data file - `entry`'s single `df` argument hid
+exactly that (the stat test looks at the file being written, not at the file the fallback record was written for).
 -/
 namespace TV.Entry
 open TV TV.Sidecar
@@ -27,5 +32,16 @@ def entry (magic : Bytes) (version : Nat) (df : DataFile) (primary fallback : Op
   match loadValid magic version p fileID fileSize chunkSize with
   | some s => some s
   | none => loadValid magic version f fileID fileSize chunkSize
+
+/-- what `handleFileBegin` / `buildResumeInfo` do: the only metadata consulted is the file next to the data file -/
+def entryAt (magic : Bytes) (version : Nat) (df : DataFile) (primary : Option Bytes) (fileID : Bytes) (fileSize chunkSize : Nat) :
+    Option Sc :=
+  entry magic version df primary none fileID fileSize chunkSize
+
+/-- The receiver as it was, with both data files in view: `dfHere` is the file being written (`<out>/<rel path>`, the one the stat
+test looks at), the fallback record lies under `<out>/<root>` and describes the file over there. -/
+def entryOld (magic : Bytes) (version : Nat) (dfHere : DataFile) (primary fallbackElsewhere : Option Bytes) (fileID : Bytes)
+    (fileSize chunkSize : Nat) : Option Sc :=
+  entry magic version dfHere primary fallbackElsewhere fileID fileSize chunkSize
 
 end TV.Entry
